@@ -6,6 +6,22 @@ LIBS = {
 }
 
 PROPS = {
+    "C10": {
+        "groups": [{"name": "C10", "quick": 4000, "thorough": 150000}],
+        "rule": "page chains of 0..18 embedded pages (Collection/OrderedCollection, items on the root and/or pages, empty pages with varying bias, absent/null/single-value items, wrong page types, chains ending in a non-https reference, a non-object, a non-collection or an object that would need re-fetching) x request-size sequences (one large request, constant small requests, random sizes incl. 0) x start offsets; "
+                "non-trivial = at least three pages visited; distinct by op content",
+        "trusted": ["encoding/json decoding (typed tree shipped to the model)",
+                    "remote pages: in this check every `next` that would need the network fails deterministically (non-https / non-object); remote and cyclic chains are covered by the theorems (arbitrary `load`) and by the simulator-based checks (C02/C09)"],
+        "assumptions": ["amount + startingPoint < 2^64 (Go uint)"],
+    },
+    "C11": {
+        "groups": [{"name": "C11", "quick": 4000, "thorough": 150000}],
+        "rule": "0..4 sources of 0..7 items (newest-first with ties, or unsorted; missing timestamps; empty and nil sources) over exact-delivery synthetic containers x scripts of 1..6 harvests (sizes 0..6, start offsets, 'again' = the same position asked twice); "
+                "non-trivial = at least two sources and three delivered items; distinct by op content",
+        "trusted": ["slice aliasing in Splicer.clone (shared backing arrays) is modelled by value semantics; 'again' steps re-harvest old positions to exercise it",
+                    "containers deliver exactly the requested amount unless exhausted (C10 theorem harvest_cont)"],
+        "assumptions": [],
+    },
     "C13": {
         "groups": [{"name": "C13", "quick": 6000, "thorough": 200000}],
         "rule": "styled text from a cell grammar (words, runs of all IsSpace kinds, newlines, nested SGR attributes; 1 in 5 a hostile ESC/[/m string) x widths -3..250; "
@@ -33,6 +49,22 @@ PROPS = {
         "assumptions": ["feed.CreateEmpty is dead code on the tree and outside the property (create / create-list are the documented constructors)",
                         "Go int overflow of feed bounds is out of scope"],
     },
+    "C19": {
+        "groups": [{"name": "C19", "quick": 3000, "thorough": 60000},
+                   {"name": "C19x", "quick": 4000, "thorough": 16777216, "workers": 16}],
+        "rule": "hexToAnsi on valid, near-valid (one bad digit, signs, underscores, wrong length, non-ASCII digits) and random strings; configuration files generated value-first (colours, preload_amount/timeout_seconds/cache_size from {-1000..1000}, hooks of 0..3 arguments, unknown keys/tables, syntax errors, missing file) "
+                "then serialised to TOML and loaded by the real parse+postprocess; C19x walks the 16^6 colour space (a stride sample in quick, all of it in thorough); non-trivial = colour accepted / configuration not rejected by TOML itself; distinct by op content",
+        "trusted": ["BurntSushi/toml decoding (the model starts from the decoded values; TOML-level rejections are the generator's ground truth)",
+                    "strconv.ParseUint(.,16,0) on two bytes and strconv.Itoa as modelled"],
+        "assumptions": ["Config.Safe is the only configuration hypothesis used by the panic-freedom theorems of C06/C07/C20"],
+    },
+    "C20": {
+        "groups": [{"name": "C20", "quick": 600, "thorough": 20000, "workers": 12}],
+        "rule": "hooks of 1..5 arguments drawn from exact placeholders, embedded/near placeholders, dashes and empty strings, with the program itself sometimes named like a placeholder; links with spaces, quotes, shell metacharacters, leading dashes, newlines, placeholder look-alikes; "
+                "the real ui.openExternally runs a dump program that records argv and stdin; non-trivial = at least one argument after the program; distinct by op content",
+        "trusted": ["os/exec passes argv unchanged and never involves a shell (generated fact: exec.Command(command[0], command[1:]...))"],
+        "assumptions": ["the hook is non-empty (Config.Safe, C19)"],
+    },
     "C16": {
         "groups": [{"name": "C16", "quick": 6000, "thorough": 200000}],
         "rule": "prefix/centered/suffix of 0..8 styled lines each x heights 1..16; non-trivial = height exceeds the centred text (buffers are computed); distinct by op content",
@@ -45,6 +77,18 @@ PROPS = {
 # Texts for MANIFEST.json (checks/gen_manifest.py)
 
 MANIFEST_TEXT = {
+    "C10": {
+        "text": "Lean theorems for every page chain given by an arbitrary load function (cyclic and endless chains included) and all request sizes and offsets: bounded number of pages visited; the delivery is a prefix of the true sequence followed by at most one error item; a continuation means exactly the requested amount; harvesting n1 then n2 equals harvesting n1+n2; an empty continuation without error only at a clean end with everything delivered; refusal only after more than three consecutive empty pages. Termination itself is the well-founded measure of the model. Tied to collection.go by differential correspondence on generated embedded chains; the prefix predicate is evaluated on every implementation output.",
+        "design_ref": "DESIGN.md §5 C10",
+        "note": "Trusted: Lean kernel; correspondence check (testing); encoding/json; the goroutine fan-out inside Harvest modelled as an order-preserving map.",
+        "technique": "Lean 4 proof (well-founded recursion + functional induction) + differential correspondence",
+    },
+    "C11": {
+        "text": "Lean theorems for all source lists, timestamps and request sizes: each microharvest pops the first head with maximal timestamp; taking q items is a trace of pops, each source's delivered items followed by its remaining buffer equal its original buffer (exactly once, order kept); taking q1 then q2 equals taking q1+q2; skipping then taking equals dropping; the continuation is none exactly when the buffers ran dry. Tied to splicer.go by differential correspondence over synthetic sources through a package-internal shim.",
+        "design_ref": "DESIGN.md §5 C11",
+        "note": "Trusted: Lean kernel; correspondence check (testing); value semantics for the cloned slice-of-structs; replenish goroutines as an order-preserving map.",
+        "technique": "Lean 4 proof (induction over pops with a first-maximum invariant) + differential correspondence",
+    },
     "C13": {
         "text": "Lean theorems over all lists of regex matches (hence all strings) and all widths >= 1 for Wrap (width, content, breaks, word integrity), DumbWrap, Pad, Indent and Snip; the model is tied to ansi.go by a differential correspondence check on generated styled and hostile text, with the same predicates evaluated on the implementation's output.",
         "design_ref": "DESIGN.md §5.0, §5 C13",
@@ -62,6 +106,18 @@ MANIFEST_TEXT = {
         "design_ref": "DESIGN.md §5 C18",
         "note": "Trusted: Lean kernel; correspondence check (testing; exhaustive to length 7 quick / 9 thorough); slice aliasing and Go map semantics as modelled.",
         "technique": "Lean 4 proof (refinement to zipper / two-sided sequence by induction over operations) + differential correspondence",
+    },
+    "C19": {
+        "text": "Lean theorems for all strings and all decoded configurations: hexToAnsi accepts exactly '#' + six hex digits and yields three decimal components 0..255; an accepted configuration satisfies Config.Safe (non-empty hook, cache >= 1, preload/timeout >= 0, well-formed colours), a rejected one names an invalid key, valid ones are accepted, the defaults are safe. Tied to config.go by differential correspondence through a package-internal shim on generated TOML files; colour well-formedness is also checked on every implementation output; thorough walks all 16^6 colours.",
+        "design_ref": "DESIGN.md §5 C19",
+        "note": "Trusted: Lean kernel; correspondence check (testing); TOML decoding; strconv as modelled.",
+        "technique": "Lean 4 proof (character-level case analysis) + differential correspondence, exhaustive colour space in thorough",
+    },
+    "C20": {
+        "text": "Lean theorems for all hooks, links and media types: argv has the hook's length, the program name is never substituted, an argument is replaced iff it is exactly a placeholder, stdin carries the link iff no %url argument, the link is one verbatim argument. Tied to ui.openExternally by running the real function with a dump program as the hook and comparing argv/stdin with the model; the same predicates are checked on the recorded argv.",
+        "design_ref": "DESIGN.md §5 C20",
+        "note": "Trusted: Lean kernel; correspondence check (testing); os/exec argv passing.",
+        "technique": "Lean 4 proof (list induction) + differential correspondence through a recording hook program",
     },
     "C16": {
         "text": "Lean theorems for all prefix/centred/suffix texts and all heights >= 1: CenterVertically returns exactly h lines, centred as specified; ReplaceLastLine keeps the height for texts of >= 2 lines; SetLength is newline-free. Tied to ansi.go by differential correspondence; the height predicate is evaluated on every implementation output.",
